@@ -118,7 +118,7 @@ func (g *IOGen) patCond() *awk.Node {
 func (g *IOGen) action(tag string, depth int, inRule bool, allowCalls bool) []*awk.Node {
 	var out []*awk.Node
 	for j := g.n(0, 3, "nact"); j > 0; j-- {
-		switch k := g.n(0, 13, "ak"); {
+		switch k := g.n(0, 14, "ak"); {
 		case k < 2:
 			out = append(out, trace(tag))
 		case k < 4:
@@ -160,11 +160,31 @@ func (g *IOGen) action(tag string, depth int, inRule bool, allowCalls bool) []*a
 			}
 			inner = append(inner, awk.Simple(awk.Break))
 			out = append(out, awk.ForInN("k", "seen", inner))
+		case k < 14:
+			// the operand list edited while the input is being read (after a getline in BEGIN, in a rule, in END):
+			// operands not yet reached are taken from ARGV/ARGC as they are when they are reached
+			g.Feat["argv-edit-late"]++
+			out = append(out, g.argvEdit())
 		default:
 			out = append(out, awk.ExprS(awk.AssignN(awk.VarN("w"), "=", awk.BinN(awk.VarN("w"), " ", awk.StrN(".")))))
 		}
 	}
 	return out
+}
+
+func (g *IOGen) argvEdit() *awk.Node {
+	switch g.n(0, 4, "ledit") {
+	case 0:
+		return awk.ExprS(awk.AssignN(awk.IndexN("ARGV", awk.NumN(float64(g.n(1, 4, "lai")))), "=", awk.StrN(g.pick([]string{"r0", "r1", "r2", "", "-", "v=late", "nofile", "flag=1"}, "lav"))))
+	case 1:
+		return awk.DeleteN("ARGV", awk.NumN(float64(g.n(1, 4, "ldi"))))
+	case 2:
+		return awk.ExprS(awk.AssignN(awk.IndexN("ARGV", awk.IncrN("++", false, awk.VarN("ARGC"))), "=", awk.StrN(g.pick(append(ioFiles, "v=appended"), "lappendf"))))
+	case 3:
+		return awk.ExprS(awk.AssignN(awk.VarN("ARGC"), "=", awk.NumN(float64(g.n(1, 5, "largc")))))
+	default:
+		return awk.PrintN([]*awk.Node{awk.StrN("ARGC"), awk.VarN("ARGC"), awk.IndexN("ARGV", awk.NumN(1)), awk.IndexN("ARGV", awk.NumN(2)), awk.VarN("v")}, "", nil)
+	}
 }
 
 // Program draws an io-profile program.
